@@ -304,7 +304,15 @@ def check_big_uploads(ck, pairs):
         elif rb.get("sleeps"):
             msg = "Server::run went to sleep although it could make progress: %s" % "; ".join(rb["sleeps"][:2])
         elif not (rs.get("panic") or rs.get("crash")):
+            def per_poll(r, k):
+                return [[bytes(e[2:]) for e in p["tr"] if e[0] == 3 and e[1] == k] for p in r["polls"]]
             for k in (0, 1):
+                if per_poll(rb, k) != per_poll(rs, k):
+                    late = next(i for i, (x, y) in enumerate(zip(per_poll(rb, k), per_poll(rs, k))) if x != y)
+                    msg = ("connection %d: after poll %d the replies written differ from the same scenario without "
+                           "padding (a complete call was not served when it had arrived, or a reply is missing)"
+                           % (k, late))
+                    break
                 if sg.writes_of(rb, k) != sg.writes_of(rs, k) or k in sg.dropped(rb):
                     msg = ("connection %d got %d replies with the large upload present, %d with the same call "
                            "without padding (or was dropped)" % (k, len(sg.writes_of(rb, k)), len(sg.writes_of(rs, k))))
